@@ -29,7 +29,7 @@ CHECKS = {
         "base, single consumer; the delay queue hands out only the element it validated; the event queue skips only a pending "
         "duplicate); and every directory whose changes should reach the stream gets a kernel watch under its current name (the "
         "reader's bookkeeping contract, instances shared with C02); a directory arriving or renamed under a recursive watch carries the complete "
-        "sub-event generator for its descendants; the delay queue's deque is unbounded; filesystem calls that raise for a missing path, made on the emitter's or the reader's thread, sit inside a handler for OSError (os.walk is tolerant, os.fwalk is not). Histories x timings x kernel behaviour are not decided.",
+        "sub-event generator for its descendants; the delay queue's deque is unbounded; filesystem calls that raise for a missing path, made on the emitter's or the reader's thread, sit inside a handler for OSError (os.walk is tolerant, os.fwalk is not); a record's directory is looked up in the live wd->path map; the errno helper raises for every add-watch failure but the tabled EACCES. Histories x timings x kernel behaviour are not decided.",
         ref="§3/C01",
     ),
     "C02": dict(
@@ -39,7 +39,7 @@ CHECKS = {
         "failure edge), renamed directories and their watched descendants are re-keyed, IGNORED prunes, and no watch is "
         "installed under a non-recursive watch; plus the initial recursive installation. The symlink policy of the walks is the caller's flag, handed down unchanged. That the kernel's watches equal the "
         "map is not decided. "
-        "Also: no loop of the reader or of the initial installation mutates the container it iterates (a pruned listing must be iterated through a copy).",
+        "A record's directory is looked up in the live map (not a copy taken per buffer); a failed add-watch is raised, never recorded. Also: no loop of the reader or of the initial installation mutates the container it iterates (a pruned listing must be iterated through a copy).",
         ref="§3/C02",
     ),
     "C03": dict(
@@ -59,7 +59,7 @@ CHECKS = {
         "snapshot keyed by the dequeued watch, re-checks membership against the live registry, under the lock, one dispatch "
         "per iteration; every producer enqueues (event, own watch). Exactly-once as a trace property over schedules follows "
         "only together with RLock/queue.Queue semantics, which are trusted. "
-        "Also: unschedule_all() empties the handler registry wholesale on every normal path (instance shared with C05); the per-watch handler collection cannot hold a handler twice (a set, or every insertion under a failed membership test).",
+        "Also: unschedule_all() empties the handler registry wholesale on every normal path (instance shared with C05); the per-watch handler collection cannot hold a handler twice (a set, or every insertion under a failed membership test); every dispatcher consumes a queue created per instance.",
         ref="§3/C04",
     ),
     "C05": dict(
@@ -74,7 +74,7 @@ CHECKS = {
         text="Static analysis of the deadlock discipline: acyclic lock order, no join/blocking wait under a lock its waker needs, "
         "every untimed blocking site in a thread body has a waker that stop() must reach after the flag is set, untimed "
         "Condition.wait only inside predicate loops whose predicate the notifiers write, callback lock re-entrant, producers "
-        "never block on the (unbounded) event queue, stop path idempotent, BaseObserver.stop() cannot leave through a failed registry look-up, every cursor / count-down `while` loop advances on each way round. Thorough tier cross-checks every inlined call edge "
+        "never block on the (unbounded) event queue, stop path idempotent, BaseObserver.stop() cannot leave through a failed registry look-up, every cursor / count-down `while` loop advances on each way round, explicit acquires of the delay queue are released on every way out (shared with C17). Thorough tier cross-checks every inlined call edge "
         "against mypy. Liveness under the OS scheduler and anything in user handlers are not decided.",
         ref="§3/C06",
     ),
@@ -102,7 +102,7 @@ CHECKS = {
         technique="exception-flow through the recursive snapshot walk (errno-precise) + effect summary of the polling translation",
         text="Static analysis. Every listdir/stat call below the root absorbs ENOENT/ENOTDIR/EACCES at every recursion depth; "
         "the polling emitter maps each of the eight diff lists once to its class, deletions before creations; baseline "
-        "hand-over order under the lock; root-gone branch; snapshot paths are join(<directory listed, as given>, entry name); a loop of the diff computation that takes its own element out of a set ranges over a copy of that set as it stands (not its initial value). That a diff is the right diff (C09) is not decided.",
+        "hand-over order under the lock; root-gone branch; each category's file list leaves out that category's directories only; snapshot paths are join(<directory listed, as given>, entry name); a loop of the diff computation that takes its own element out of a set ranges over a copy of that set as it stands (not its initial value). That a diff is the right diff (C09) is not decided.",
         ref="§3/C10",
     ),
     "C11": dict(
@@ -111,7 +111,7 @@ CHECKS = {
         "flags the translation needs for that class (derived from the emitter's paths, both modes) and the flags the reader's "
         "bookkeeping needs (derived from read_events) must be contained in what get_event_mask_from_filter provides for that "
         "class (abstractly evaluated, masks folded to integers). "
-        "Also: what InotifyEmitter.queue_events hands to queue_event does not depend on the filter (paths differing only in a filter-dependent condition emit alike, except events of exactly the tested class); a mask given to the reader is stored as given (no flag forced on or off for filtered watches only).",
+        "Also: what InotifyEmitter.queue_events hands to queue_event does not depend on the filter (paths differing only in a filter-dependent condition emit alike, except events of exactly the tested class); a mask given to the reader is stored as given (no flag forced on or off for filtered watches only); besides the mask nothing handed to the reading layer depends on the filter.",
         ref="§3/C11",
     ),
     "C12": dict(
@@ -119,7 +119,7 @@ CHECKS = {
         text="Static analysis. The close/read hand-over protocol is sliced from Inotify.close/read_events/InotifyBuffer.run and "
         "its lock-delimited blocks are interleaved exhaustively (use-after-close, double close, leak, blocked forever), an iteration of the reader's retry loop that goes round again included; "
         "constructor regions after the first descriptor acquisition must release on failure; the stop/close chain must reach "
-        "the release of all three descriptors. Counts against the real kernel are not decided.",
+        "the release of all three descriptors; one emitter per watch (shared with C13). Counts against the real kernel are not decided.",
         ref="§3/C12",
     ),
     "C13": dict(
@@ -177,7 +177,7 @@ CHECKS = {
         text="Static analysis. Every path-valued argument of an event constructed by the inotify emitter derives from "
         "_decode_path(native path) (or dirname of it, or the empty literal); _decode_path is conditional on the watch path type; "
         "Path is normalised to str (where the path is stored or where it is read); polling paths derive from join(root, entry.name); the watch key carries the stored path itself "
-        "(str and bytes spellings are different watches). Round-tripping of undecodable names "
+        "(str and bytes spellings are different watches); a record's path is join(watch path, name) or the watch path itself, never re-spelled; the recursive installation walks the path as given. Round-tripping of undecodable names "
         "is a property of os.fsdecode and is trusted. "
         "Also: the reader's re-key / prune rows (shared with C02): a native path is a wd->path look-up, so the table is updated before the next record of the read is resolved.",
         ref="§3/C19",
